@@ -105,12 +105,15 @@ class ReplayStats(object):
 
 
 def replay_validate(ctx, name, driver_mod, driver_args, behaviours, trace_module, trace_constants, invariants=(),
-                    jobs=8, drv_timeout=1500, classify=None, env=None, trace_cfg_extra=None):
+                    jobs=8, drv_timeout=1500, classify=None, env=None, trace_cfg_extra=None, max_rej_per_chunk=2,
+                    max_confirm=6):
     """behaviours: list of lists of labels.  driver command:
          python -m <driver_mod> <lib> <behaviours.json> <out.ndjson> <workdir> <seed> <driver_args...>
        (driver_args[0] must be the library path).  classify(rej) may turn a confirmed rejection into a known finding:
        it returns the finding id or None."""
     st = ReplayStats()
+    st.meta = dict(trace_module=trace_module, trace_constants=trace_constants, invariants=list(invariants),
+                   env=env or {})
     t0 = time.time()
     if not behaviours:
         return st
@@ -182,7 +185,8 @@ def replay_validate(ctx, name, driver_mod, driver_args, behaviours, trace_module
             with open(nxt, "w") as f:
                 f.writelines(lines_c[:a] + lines_c[b:])
             cur = nxt
-            if rounds > 25:
+            if rounds >= max_rej_per_chunk:
+                local["unvalidated_rest"] = True
                 break
         local["accepted"] = local["executions"] - len(removed)
         if execs:
@@ -204,6 +208,8 @@ def replay_validate(ctx, name, driver_mod, driver_args, behaviours, trace_module
     # confirm each rejection by re-running its behaviour alone; only reproducible ones count
     confirmed = []
     for rj in st.rejected:
+        if len(confirmed) >= max_confirm:
+            break
         if rj["behaviour"] is None:
             confirmed.append(rj)
             continue
@@ -253,7 +259,8 @@ def report_rejections(ctx, name, st, driver_mod, driver_args, classify=None):
         with open(os.path.join(d, "info.json"), "w") as f:
             json.dump(dict(property=ctx.prop, check=name, first_unmatched_event_no=rj["event_no"],
                            first_unmatched_event=rj["event"], seed=rj["seed"], driver=driver_mod,
-                           driver_args=list(driver_args[1:])), f, indent=1)
+                           driver_args=list(driver_args[1:]), build_cfg=getattr(st, "build_cfg", "ossl"),
+                           **st.meta), f, indent=1)
         with open(os.path.join(d, "replay.sh"), "w") as f:
             f.write("#!/bin/sh\n# re-executes the behaviour on the current /repo build and validates the trace\n"
                     "cd %s && exec bin/check --replay %s\n" % (ROOT, d))
